@@ -5,12 +5,47 @@ import TorchDataVerif.Proofs.NodesLoaderF
 namespace TDV.E2EN
 open TDV.Node TDV.Loader
 
-/-- Pipeline descriptions.  `map f`: `Mapper` (`f x = none`: `map_fn` raises on `x`); `buffered sf`:
+/-- What is assumed of a user's `Stateful` iterable under `IterableWrapper`: the laws `StLaws` of C02 for some
+equivalence `E` and invariant `I`, and on the invariant: `next()` never raises, returns items of `xs` only, and
+every `iter()` yields exactly `xs`. -/
+def StOk (it : StIter) (xs : List Item) : Prop :=
+  ∃ (E : it.τ → it.τ → Prop) (I : it.τ → Prop), StLaws it E I ∧
+    (∀ s, I s → ∀ e, (it.nxt s).1 ≠ .error e) ∧
+    (∀ s, I s → ∀ v, (it.nxt s).1 = .item v → v ∈ xs) ∧
+    (∀ s, I s → Yields (iterNode it) ⟨it.iter s, false⟩ xs)
+
+theorem StOk.errFree {it : StIter} {xs : List Item} (h : StOk it xs) : ErrFree (statefulSource it) := by
+  obtain ⟨E, I, L, he, _, _⟩ := h
+  intro r hr e hc
+  have hI := statefulSource_reach it L r hr
+  exact he _ hI e ((stNext_out it (r.st : SrcSt it)).symm.trans hc)
+
+theorem StOk.items {it : StIter} {xs : List Item} (h : StOk it xs) :
+    ItemsSat (statefulSource it) (fun v => v ∈ xs) := by
+  obtain ⟨E, I, L, _, hi, _⟩ := h
+  intro r hr v hv
+  have hI := statefulSource_reach it L r hr
+  exact hi _ hI v ((stNext_out it (r.st : SrcSt it)).symm.trans hv)
+
+theorem StOk.del {it : StIter} {xs : List Item} (h : StOk it xs) :
+    Del (statefulSource it) (fun _ => xs) (fun _ _ => True) := by
+  obtain ⟨E, I, L, _, _, hy⟩ := h
+  refine Del.const ?_
+  intro R hR
+  have hI : I (R.st : SrcSt it).its := by
+    rcases hR with hR | hR
+    · exact statefulSource_reach it L R hR
+    · subst hR; exact L.i_init
+  exact statefulSource_denote it R xs (hy _ hI)
+
+/-- Pipeline descriptions.  `stateful it xs`: `IterableWrapper` over a `Stateful`
+iterable whose `iter()` yields `xs`; `map f`: `Mapper` (`f x = none`: `map_fn` raises on `x`); `buffered sf`:
 `Prefetcher` / in-order `ParallelMapper` with `snapshot_frequency = sf` (sequential abstraction);
 `unbatch`/`filter` carry the loop fuel of the model. -/
 inductive Pipe where
   | list (l : List Item)
   | sampler (idx : Nat → List Item) (upd : Nat → Nat) (e0 : Nat)
+  | stateful (it : StIter) (xs : List Item)
   | map (f : Item → Option Item) (p : Pipe)
   | batch (bs : Nat) (dl : Bool) (p : Pipe)
   | unbatch (fuel : Nat) (p : Pipe)
@@ -22,6 +57,7 @@ namespace Pipe
 def node : Pipe → Node
   | .list l => listSource l
   | .sampler idx upd e0 => samplerNode idx upd e0
+  | .stateful it _ => statefulSource it
   | .map f p => mapper f p.node
   | .batch bs dl p => batcher bs dl p.node
   | .unbatch fuel p => unbatcher fuel p.node
@@ -44,6 +80,7 @@ def unlist : Item → List Item
 def epochs : Pipe → Nat → List Item
   | .list l, _ => l
   | .sampler idx upd e0, j => idx (Ref.epochOf upd e0 j)
+  | .stateful _ xs, _ => xs
   | .map f p, j => (p.epochs j).filterMap f
   | .batch bs dl p, j => (Ref.chunk bs dl (p.epochs j)).map Item.list
   | .unbatch _ p, j => (p.epochs j).flatMap unlist
@@ -54,16 +91,18 @@ def epochs : Pipe → Nat → List Item
 def Items : Pipe → Item → Prop
   | .list l => fun v => v ∈ l
   | .sampler idx _ _ => fun v => ∃ e, v ∈ idx e
+  | .stateful _ xs => fun v => v ∈ xs
   | .map f p => fun w => ∃ v, p.Items v ∧ f v = some w
   | .batch _ _ p => IsBatchOf p.Items
   | .unbatch _ p => ElemOf p.Items
   | .filter _ q p => fun v => p.Items v ∧ q v = true
   | .buffered _ p => p.Items
 
-/-- At most `B` items per epoch, established below `Unbatcher`s only (bounds `Filter`'s rejection loop). -/
+/-- At most `B` items per epoch, established below `Unbatcher`s and for list / sampler sources only (bounds `Filter`'s rejection loop). -/
 def Below : Pipe → Nat → Prop
   | .list l, B => l.length ≤ B
   | .sampler idx _ _, B => ∀ e, (idx e).length ≤ B
+  | .stateful _ _, _ => False
   | .map _ p, B => p.Below B
   | .batch _ _ p, B => p.Below B
   | .unbatch _ _, _ => False
@@ -75,10 +114,12 @@ def Below : Pipe → Nat → Prop
 * `batch`: `batch_size ≥ 1`;
 * `unbatch`: every item of the source is a non-empty sequence; loop fuel `≥ 2` and more than the number of
   batches of an epoch;
+* `stateful`: `StOk` (assumptions on the user's iterable);
 * `filter`: loop fuel exceeds a bound on the number of items of an epoch of the source. -/
 def Ok : Pipe → Prop
   | .list _ => True
   | .sampler _ _ _ => True
+  | .stateful it xs => StOk it xs
   | .map f p => p.Ok ∧ ∀ v, p.Items v → (f v).isSome = true
   | .batch bs _ p => p.Ok ∧ 1 ≤ bs
   | .unbatch fuel p => p.Ok ∧ (∀ v, p.Items v → IsNeList v) ∧ 2 ≤ fuel ∧ ∀ e, (p.epochs e).length < fuel
@@ -89,6 +130,7 @@ def Ok : Pipe → Prop
 def NoSampler : Pipe → Prop
   | .list _ => True
   | .sampler _ _ _ => False
+  | .stateful _ _ => True
   | .map _ p => p.NoSampler
   | .batch _ _ p => p.NoSampler
   | .unbatch _ p => p.NoSampler
@@ -100,6 +142,7 @@ pulls from the source, which desynchronises `SamplerWrapper._started` from "an i
 def Aligned : Pipe → Prop
   | .list _ => True
   | .sampler _ _ _ => True
+  | .stateful _ _ => True
   | .map _ p => p.Aligned
   | .batch _ _ p => p.Aligned
   | .unbatch _ p => p.NoSampler
@@ -110,6 +153,7 @@ theorem NoSampler.aligned {p : Pipe} (h : p.NoSampler) : p.Aligned := by
   induction p with
   | list _ => trivial
   | sampler _ _ _ => exact h.elim
+  | stateful _ _ => trivial
   | map _ _ ih => exact ih h
   | batch _ _ _ ih => exact ih h
   | unbatch _ _ _ => exact h
@@ -120,6 +164,7 @@ theorem epochs_const {p : Pipe} (h : p.NoSampler) (e : Nat) : p.epochs e = p.epo
   induction p with
   | list _ => rfl
   | sampler _ _ _ => exact h.elim
+  | stateful _ _ => rfl
   | map f p ih => simp only [epochs]; rw [ih h]
   | batch bs dl p ih => simp only [epochs]; rw [ih h]
   | unbatch _ p ih => simp only [epochs]; rw [ih h]
@@ -130,6 +175,7 @@ theorem epochs_len {p : Pipe} {B : Nat} (ok : p.Ok) (h : p.Below B) (e : Nat) : 
   induction p with
   | list _ => exact h
   | sampler _ _ _ => exact h _
+  | stateful _ _ => exact h.elim
   | map f p ih =>
     have := ih ok.1 h
     have h2 := List.length_filterMap_le f (p.epochs e)
